@@ -33,6 +33,8 @@ namespace
                 std::lock_guard<std::mutex> g(sh->m);
                 sh->ran.insert(req.resource());
             }
+            if (req.resource().rfind("/slow/", 0) == 0)
+                net::sleep_ms(atoi(req.resource().c_str() + 6)); // a handler that takes its time on the worker
             w.send(Http::Code::Ok, req.resource());
         }
         std::shared_ptr<Shared> sh;
@@ -162,6 +164,19 @@ namespace
             }
             ::close(fd);
             return;
+        }
+        if (s.keepalive == 3)
+        {
+            // first a request whose handler takes 1.7 s, then at once the second request: its clock starts when the first
+            // was completed (answered), the handler's time is not charged to it
+            if (!net::send_all(fd, "GET /slow/1700 HTTP/1.1\r\nHost: x\r\n\r\n") || !net::read_message(fd, carry, true, m, 8000, err) || m.status != 200)
+            {
+                s.fail_sig = "C14/timing/no-response";
+                s.fail_msg = s.desc + ": the slow first request was not answered 200: " + err;
+                ::close(fd);
+                return;
+            }
+            t0 = net::now_s();
         }
         if (s.keepalive == 2)
         {
@@ -471,6 +486,27 @@ namespace verif
             th_.emplace_back([&s, &srv, th, tb, sh] { run_script(s, srv.port, th, tb, sh); });
         for (auto& t : th_)
             t.join();
+        if (with_stalls && std::min(th, tb) >= 1.5 && n % 2 == 1)
+        {
+            // (derived, no choice consumed; run alone after the batch: its slow handler would delay the idle scans the
+            // other scripts' deadlines are judged by) a keep-alive connection whose first request is handled for 1.7 s;
+            // the second request pauses in its head for (deadline - 1.1 s) and completes - well within both time-outs
+            // of its own start, although handler time + pause exceed them
+            Script s;
+            s.kind          = Script::Stall;
+            s.keepalive     = 3;
+            s.tag           = "/after-slow";
+            size_t head_len = 0;
+            s.wire          = make_request(s.tag, std::min<size_t>(L, 300), head_len);
+            s.where         = "headers";
+            s.stall_at      = 30;
+            s.stall_s       = std::min(th, tb) - 1.1;
+            s.expect_status = 200;
+            s.desc          = "keep-alive script: first request handled for 1.7 s, the second pauses " + std::to_string(s.stall_s).substr(0, 3) + " s after 30 bytes and completes, expecting 200";
+            rep.label("keep-alive:second-request-after-a-slow-handler");
+            run_script(s, srv.port, th, tb, sh);
+            scripts.push_back(s);
+        }
         rep.subchecks += scripts.size();
         srv.stop();
         for (auto& s : scripts)
